@@ -530,6 +530,31 @@ func envStream(r *rng, thorough bool) {
 	for _, ac := range envAliasCases() {
 		envCase(ac.old, ac.new, ac.name)
 	}
+	// deeply nested parts (depth 6..40, far below the limit 1000 diffEnv compares and diffs with, far above
+	// CompareLimit = 10): an unchanged deep part next to a changed shallow one, and a changed deep part; the reason
+	// must still name exactly the differing parts and come with a faithful diff
+	for n := 6; n <= 40; n++ {
+		for kind := 0; kind < 3; kind++ {
+			mkEnv := func(leaf string, code string, extra bool) *starlark.Dict {
+				d := starlark.NewDict(4)
+				g := starlark.NewDict(1)
+				g.SetKey(starlark.String("D"), deepVal(n, kind, leaf))
+				d.SetKey(starlark.String("names"), starlark.Tuple{starlark.String("n")})
+				d.SetKey(starlark.String("global values"), g)
+				if extra {
+					d.SetKey(starlark.String("constant values"), starlark.Tuple{deepVal(n/2, (kind+1)%3, "k")})
+				}
+				d.SetKey(starlark.String("code"), starlark.Bytes(code))
+				return d
+			}
+			extra := r.chance(50)
+			envCase(mkEnv("x", "c", extra), mkEnv("x", "d", extra), "")  // deep part unchanged, code changed
+			envCase(mkEnv("x", "c", extra), mkEnv("y", "c", extra), "")  // deep part changed at its leaf
+			envCase(mkEnv("x", "c", extra), mkEnv("y", "d", !extra), "") // deep part, code and a part added/removed
+			envCase(mkEnv("x", "c", extra), mkEnv("x", "c", extra), "")  // nothing changed
+			stats["env.deep"] += 4
+		}
+	}
 }
 
 
@@ -574,4 +599,27 @@ func envAliasCases() []aliasCase {
 	// float against float, really different
 	add("float-change", env("constant values", starlark.Tuple{starlark.Float(1)}), env("constant values", starlark.Tuple{starlark.Float(2)}))
 	return out
+}
+
+
+// deepVal: a value nested n levels deep (kind 0: lists, 1: tuples, 2: lists, tuples and dicts in turn) around a leaf
+func deepVal(n, kind int, leaf string) starlark.Value {
+	var v starlark.Value = starlark.String(leaf)
+	for i := 0; i < n; i++ {
+		k := kind
+		if kind == 2 {
+			k = i % 3
+		}
+		switch k {
+		case 0:
+			v = starlark.NewList([]starlark.Value{starlark.String("a"), v})
+		case 1:
+			v = starlark.Tuple{v, starlark.MakeInt(i)}
+		default:
+			d := starlark.NewDict(1)
+			d.SetKey(starlark.String("k"), v)
+			v = d
+		}
+	}
+	return v
 }
